@@ -191,6 +191,8 @@ type Spec struct {
 	Seq func(tier string, sh *Shard, p *Part)
 	// PerScenarioBudget is the default wall-time cap per scenario by tier.
 	QuickBudget, ThoroughBudget time.Duration
+	// ThoroughTotal caps the wall time of one worker process in the thorough tier (0: 16 minutes).
+	ThoroughTotal time.Duration
 	// MinNonTrivial: the run is VACUOUS (exit 2) below this number of non-trivial cases.
 	MinNonTrivial int
 	Extra         map[string]interface{}
@@ -237,6 +239,17 @@ func runScenario(sc *Scenario, tier string, spec *Spec, part *Part) {
 	var deadline time.Time
 	if budget > 0 {
 		deadline = time.Now().Add(budget)
+	}
+	// the tier's wall-clock cap for this worker: what does not fit is reported as not explored
+	// (exhaustive:false), never silently dropped
+	if !shardDeadline.IsZero() {
+		if !time.Now().Before(shardDeadline) {
+			part.Incomplete = append(part.Incomplete, sc.Name+" (not started: the tier's wall-clock cap was reached)")
+			return
+		}
+		if deadline.IsZero() || shardDeadline.Before(deadline) {
+			deadline = shardDeadline
+		}
 	}
 	counters := map[string]int{}
 	ex := &vsched.Explorer{P: sc.P, D: sc.D, CacheOn: !sc.NoCache, Opts: sc.Opts, Deadline: deadline}
@@ -492,8 +505,20 @@ func TakeDoublePuts() []string {
 	return r
 }
 
+// shardDeadline is the end of the thorough tier's wall-clock allowance of this worker process
+// (zero: none). Scenarios are distributed over the workers round robin, so a few heavy ones can
+// land on one worker; without this cap the tier's wall time is (scenarios per worker) x budget.
+var shardDeadline time.Time
+
 func runShard(spec *Spec, tier string, sh *Shard, only string) *Part {
 	part := newPart()
+	if tier == "thorough" {
+		total := spec.ThoroughTotal
+		if total == 0 {
+			total = 16 * time.Minute
+		}
+		shardDeadline = time.Now().Add(total)
+	}
 	if !spec.NoPoolMonitor {
 		watchPools()
 	}
